@@ -68,7 +68,7 @@ func callTf(name string, in []byte) (out string, changed bool, errd bool, inAfte
 
 // C14: transformations are total, pure functions with sound change reports.
 func C14(run *vf.Run) {
-	run.Rule = "Transform.tla: byte-wise reference definitions (lowercase, uppercase, length, hexEncode/hexDecode, urlDecode, removeNulls, replaceNulls, removeWhitespace, compressWhitespace, trim*, none) and the laws every transformation obeys (Pure, InputIntact, ChangeSound, inverse pairs hexDecode.hexEncode / base64Decode.base64Encode / urlDecode.urlEncode = id, idempotence of trimming / whitespace / NUL removal / case mapping). Transform_MC enumerates every byte string over an adversarial alphabet (letters of both cases, space, tab, NUL, %, +, hex digits, backslash, &, the two bytes of a no-break space 0xC2 0xA0 - so that deleting a byte between them creates one -, 0xC3, 0xFF) up to MaxLen - truncated escapes at every offset are in it by construction - and TLC checks the model's own laws; the real registered transformations (all 32) are evaluated on every input on a private buffer, the function table (input, output, changed flag, second evaluation, input bytes afterwards, compositions) is recorded and Transform_Trace checks every law on every record; md5 / sha1 / length are compared with Go's crypto and strconv. Non-trivial = record whose output differs from its input"
+	run.Rule = "Transform.tla: byte-wise reference definitions (lowercase, uppercase, length, hexEncode/hexDecode, urlDecode, removeNulls, replaceNulls, removeWhitespace, compressWhitespace, trim*, none) and the laws every transformation obeys (Pure, InputIntact, ChangeSound, inverse pairs hexDecode.hexEncode / base64Decode.base64Encode / urlDecode.urlEncode = id, idempotence of trimming / whitespace / NUL removal / case mapping). Transform_MC enumerates every byte string over an adversarial alphabet (letters of both cases, space, tab, NUL, %, +, hex digits, backslash, &, the two bytes of a no-break space 0xC2 0xA0 - so that deleting a byte between them creates one -, 0xC3, 0xFF) up to MaxLen - truncated escapes at every offset are in it by construction - plus every string of length 4 over the delimiters of character references and escapes {& # 0 x ; a \\ u}, and TLC checks the model's own laws; the real registered transformations (all 32) are evaluated on every input on a private buffer, the function table (input, output, changed flag, second evaluation, input bytes afterwards, compositions) is recorded and Transform_Trace checks every law on every record; md5 / sha1 / length are compared with Go's crypto and strconv. Non-trivial = record whose output differs from its input"
 	run.Exhaustive = true
 	run.Assume("md5 / sha1 / base64 reference values come from the Go standard library (trusted base)")
 	run.Assume("lowercase / uppercase / removeWhitespace / compressWhitespace reference equality is asserted on ASCII inputs only (on invalid UTF-8 the standard definition is ambiguous)")
@@ -101,6 +101,24 @@ func C14(run *vf.Run) {
 		run.Inconclusive("Transform_MC: TLC did not complete cleanly (a law of the reference definitions fails?): %s\n%s", res.Describe(), res.ErrorText)
 		return
 	}
+	// a second domain for the entity / escape decoders: the delimiters of character references and escapes, to length 4
+	res2, err := vf.RunTLC(vf.TLCOpts{Module: "Transform_MC", CfgText: "SPECIFICATION Spec\nCONSTANTS\n  Alphabet = {38, 35, 48, 120, 59, 97, 92, 117}\n  MaxLen = 4\nINVARIANTS RefInverse RefIdem RefLenPreserved Emit\n",
+		Workers: 8, Timeout: vf.Pick(run, 10*time.Minute, 60*time.Minute),
+		OnOut: func(raw json.RawMessage) {
+			var d struct {
+				In eng.Bytes `json:"in"`
+			}
+			if json.Unmarshal(raw, &d) == nil && len(d.In) == 4 { // the shorter ones are in the first domain's spirit already
+				mu.Lock()
+				inputs = append(inputs, []byte(d.In))
+				mu.Unlock()
+			}
+		}})
+	if err != nil || res2.Violated != "" || !res2.OK() {
+		run.Inconclusive("Transform_MC (reference domain 2): %v %v", err, res2)
+		return
+	}
+	run.AddTLC(res2)
 	sort.Slice(inputs, func(i, j int) bool { return bytes.Compare(inputs[i], inputs[j]) < 0 })
 	// longer, structured inputs produced from the same alphabet (long runs, escapes at the very end)
 	extra := [][]byte{[]byte("%"), []byte("%4"), []byte("%41"), []byte("a%4"), []byte("\\x4"), []byte("\\x"), []byte("\\u00"), []byte("&#x4"), []byte("&#"), []byte("&amp"), []byte("&lt;"),
